@@ -37,11 +37,7 @@ Section UnfoldC.
       let '(l', c, us) := lr in
       match us with
       | [] => UOther
-      | u0 :: ur =>
-          let actual := fold_left umul ur u0 in
-          if (match to with Some _ => true | None => false end) || c
-          then maybe_convert G (EMul l') c actual to
-          else UOk (EMul l, c, actual)
+      | u0 :: ur => maybe_convert G (if c then EMul l' else EMul l) c (fold_left umul ur u0) to
       end).
   Proof.
     cbn [convert].
@@ -132,10 +128,8 @@ Section Identity.
     - rewrite convert_add in H0. apply bindr_ok in H0 as [[[l' c] us] [_ H0]].
       destruct (lastu us); [|discriminate]. injection H0 as <- -> _. reflexivity.
     - rewrite convert_mul in H0. apply bindr_ok in H0 as [[[l' c] us] [Hl H0]].
-      destruct us as [|u1 ur]; [discriminate|]. cbn zeta in H0.
-      destruct ((match to with Some _ => true | None => false end) || c).
-      + apply mc_id in H0 as [-> ->]. destruct (cloop_id _ _ H _ _ _ _ Hl) as [-> _]. reflexivity.
-      + injection H0 as <- _ _. reflexivity.
+      destruct us as [|u1 ur]; [discriminate|].
+      apply mc_id in H0 as [-> ->]. reflexivity.
     - cbn [convert] in H0. apply bindr_ok in H0 as [[[x' cx] ux] [_ H0]].
       destruct (expo_value x') as [m| |]; try discriminate. destruct (Qeq_bool m 0); [discriminate|].
       apply bindr_ok in H0 as [[[b' cb] ub] [_ H0]]. apply mc_id in H0 as [-> Hc]. rewrite Hc. reflexivity.
@@ -222,20 +216,6 @@ Proof.
   - assert (d = 1%Z) by lia. rewrite Hq, H. apply Rpower_1. exact Hc.
 Qed.
 
-(* ---- float(exponent) ------------------------------------------------------------------------------------- *)
-Fixpoint xsum (l : list expr) : xval :=
-  match l with [] => XNum 0 | y :: r => xbin Qplus (expo_value y) (xsum r) end.
-Fixpoint xprod (l : list expr) : xval :=
-  match l with [] => XNum 1 | y :: r => xbin Qmult (expo_value y) (xprod r) end.
-
-Lemma expo_add l : expo_value (EAdd l) = xsum l.
-Proof. cbn [expo_value]. induction l as [|a l IH]; cbn [xsum]; [reflexivity | rewrite <- IH; reflexivity]. Qed.
-Lemma expo_mul l : expo_value (EMul l) = xprod l.
-Proof. cbn [expo_value]. induction l as [|a l IH]; cbn [xprod]; [reflexivity | rewrite <- IH; reflexivity]. Qed.
-
-Lemma xbin_num op a b m : xbin op a b = XNum m -> exists x y, a = XNum x /\ b = XNum y /\ m = op x y.
-Proof. destruct a, b; cbn; try discriminate. intros [= <-]. eexists _, _. repeat split. Qed.
-
 (* ---- value preservation ---------------------------------------------------------------------------------- *)
 Section Preserve.
   Variable G : env.
@@ -260,6 +240,7 @@ Section Preserve.
   Notation sSI_fn := (sSI_fn G fsem psem csem nu de).
   Notation sSI_bool := (sSI_bool G fsem psem csem nu de).
   Notation sSI_pw := (sSI_pw G fsem psem csem nu de).
+  Notation expo_sound := (expo_sound fsem psem csem nu de).
 
   Definition rel (e e' : expr) (u : nunit) : Prop := eSI e = option_map (scale_val (sc G u)) (eN e').
 
@@ -410,25 +391,6 @@ Section Preserve.
     inversion H2; subst. constructor; [split; assumption | apply IH; assumption].
   Qed.
 
-  Lemma expo_sound : forall x m, expo_value x = XNum m -> eN x = Some (VR (Q2R m)).
-  Proof.
-    induction x using expr_ind'; intros m Hm; try (cbn [expo_value] in Hm; discriminate).
-    - cbn [expo_value] in Hm. injection Hm as <-. reflexivity.
-    - cbn [expo_value] in Hm. destruct (id <? -1)%Z eqn:E; [discriminate|]. injection Hm as <-.
-      rewrite sN_qty. unfold qval. rewrite E. reflexivity.
-    - rewrite expo_add in Hm. rewrite sN_add.
-      assert (K : osum eN l = Some (Q2R m)).
-      { revert m Hm. induction H as [|x r Px _ IH]; cbn [xsum osum]; intros m Hm.
-        - injection Hm as <-. f_equal. unfold Q2R; cbn; lra.
-        - apply xbin_num in Hm as [a [b [Ha [Hb ->]]]]. rewrite (Px _ Ha), (IH _ Hb), Q2R_plus. reflexivity. }
-      rewrite K. reflexivity.
-    - rewrite expo_mul in Hm. rewrite sN_mul.
-      assert (K : oprod eN l = Some (Q2R m)).
-      { revert m Hm. induction H as [|x r Px _ IH]; cbn [xprod oprod]; intros m Hm.
-        - injection Hm as <-. f_equal. unfold Q2R; cbn; lra.
-        - apply xbin_num in Hm as [a [b [Ha [Hb ->]]]]. rewrite (Px _ Ha), (IH _ Hb), Q2R_mult. reflexivity. }
-      rewrite K. reflexivity.
-  Qed.
 
   Lemma ndt t : not_dimless_target (Some t) = false -> ueq [] t.
   Proof.
@@ -543,16 +505,15 @@ Section Preserve.
       destruct (osum eN l'); reflexivity.
     - (* Mul *)
       rewrite convert_mul in H0. apply bindr_ok in H0 as [[[l' c'] us] [Hl H0]].
-      destruct us as [|u1 ur]; [discriminate|]. cbn zeta in H0. cbn [homog] in Hh.
+      destruct us as [|u1 ur]; [discriminate|]. cbn [homog] in Hh.
       pose proof (cloop_rel 0 l H _ _ _ _ _ Hl Hh) as HF3.
       assert (Hrel : rel (EMul l) (EMul l') (fold_left umul ur u1)).
       { unfold rel. rewrite sSI_mul, sN_mul, (oprod_scaled _ _ l l' _ HF3), fold_left_umul_sc.
         cbn [map fold_right]. destruct (oprod eN l'); reflexivity. }
-      destruct ((match to with Some _ => true | None => false end) || c') eqn:Hb.
-      + eapply mc_sound; [exact H0 | intros b; apply ev_mul_real | exact Hrel].
-      + injection H0 as <- _ <-. apply orb_false_elim in Hb as [Hto ->].
-        destruct (cloop_id G 0 l (Pid_all l) _ _ _ _ Hl) as [-> _].
-        split; [|exact Hrel]. intros t ->. discriminate.
+      assert (E : (if c' then EMul l' else EMul l) = EMul l').
+      { destruct c'; [reflexivity|]. destruct (cloop_id G 0 l (Pid_all l) _ _ _ _ Hl) as [-> _]. reflexivity. }
+      rewrite E in H0.
+      eapply mc_sound; [exact H0 | intros b; apply ev_mul_real | exact Hrel].
     - (* Pow *)
       cbn [convert] in H0. apply bindr_ok in H0 as [[[x' cx] ux] [Hx H0]].
       destruct (expo_value x') as [m| |] eqn:Hv; try discriminate.
